@@ -185,8 +185,19 @@ def _minmax(name):
     return h
 
 
-def _ew2(f, a, b, st=None):
+def _ew2(f, a, b, st=None, strict=True):
     """elementwise binary function with broadcasting (via arr_op2 plumbing)."""
+    if not strict:
+        g = f
+        class _Box:
+            def __init__(s_, v): s_.v = v
+        # opaque leaves are boxed so that they survive as operands (needed for np.where / np.divide(where=))
+        def box(v):
+            if isinstance(v, PV): return mk_pv(v.cond, box(v.hi), box(v.lo))
+            if isinstance(v, Arr): return Arr(v.axes, box(v.body))
+            return _Box(v) if is_opaque(v) else v
+        def unbox(v): return v.v if isinstance(v, _Box) else v
+        return _ew2(lambda x, y: g(unbox(x), unbox(y)), box(a) if not isinstance(a, (ArrParam, LocalArr)) else a, box(b) if not isinstance(b, (ArrParam, LocalArr)) else b, st, True)
     if isinstance(a, LocalArr): a = _arr(a, st)
     if isinstance(b, LocalArr): b = _arr(b, st)
     if a is None or b is None: return Opaque("local array")
@@ -326,7 +337,7 @@ def h_where(I, args, kw, st, n):
     if cb is None and not _is_arr(a) and not _is_arr(b):
         return pick(c, a, b)
     # broadcast all three: use _ew2 twice with a tagging tuple
-    t = _ew2(lambda x, y: (x, y), a, b, st)
+    t = _ew2(lambda x, y: (x, y), a, b, st, strict=False)
     if is_opaque(t): return t
     if cb is None:
         T = as_arr(t)
@@ -675,6 +686,15 @@ def call_method(I, o, name, args, kw, st, n):
             return Opaque("item of array")
         if name == "reshape":
             return arr_reshape(o, args, st)
+        if name in ("any", "all"):
+            A = _arr(o, st) if isinstance(o, LocalArr) else as_arr(o)
+            if A is None or is_opaque(A): return Opaque(f"array.{name}")
+            body = A.body
+            for v, c in A.axes: body = subst_val(body, {v: X.var("_any_" + str(len(v)))}) if False else body
+            k = vkey(Arr([(f"_a{i}", c) for i, (v, c) in enumerate(A.axes)], subst_val(A.body, {v: X.var(f"_a{i}") for i, (v, c) in enumerate(A.axes)})))
+            cnd = Cond.get((name, repr(k)), f"{name}({A.body!r})"[:120])
+            setattr(cnd, name + "_of", A)
+            return PV(cnd, True, False)
         if name in ("any", "all", "min", "max", "tolist", "ravel", "flatten"):
             return Opaque(f"array.{name}")
         return Opaque(f"array method {name}")
